@@ -399,6 +399,10 @@ class ExprMixin:
             hi_t = to_int(hi_raw if hi_raw is not None else NONE_BOUND)
             f = z3.Function('slice_of', Ref, z3.IntSort(), z3.IntSort(), Ref)
             return Obj(f(base.ref, lo_t, hi_t), base.cls)
+        if isinstance(base, Obj) and base.kind == 'arr' and lo is None and hi is None and isinstance(step, int):
+            # a[::k] (e.g. the reversed view a[::-1]): an opaque array-like value; its contents are not modelled
+            f = z3.Function('strided_view', Ref, z3.IntSort(), Ref)
+            return Obj(f(base.ref, z3.IntVal(step)), base.cls)
         raise Unsupported('slice of %r' % (base,))
 
     def normalise_index(self, st, base, i, n, fr, what):
